@@ -1,4 +1,5 @@
 import GlueVerif.Lemmas.C04Indexed
+import GlueVerif.Lemmas.C04Cross
 /-!
 # C04 — views of masks and attribute values equal the same view of the full array
 
@@ -267,6 +268,25 @@ theorem cross_slice_view (sh : List Nat) (order : List Nat) (sls : List ViewItem
     Impl.mask sh (.sliceOf order sls) v = gather sh (Spec.sliceHolds sh (reorderSlices order sls)) v :=
   have hw : Spec.stateWf sh (.sliceOf order sls) = true := by simp [Spec.stateWf, hl, hp]
   ⟨Lemmas.C04.mask_view sh _ v hw hv, Lemmas.C04.mask_gather sh v hv _ hw⟩
+
+/-- … and on a pair that shares a grid — `order` a permutation of the `n` axes, axis `j` of this dataset as
+long as axis `order[j]` of the other — that is membership of the **matching point of the other dataset**
+(`otherPoint`: coordinate `idx[j]` on its axis `order[j]`) in the state's own slices on the other's shape:
+re-ordering with the inverse instead (`slices[order.index(j)]`) would select other points as soon as the
+order is not an involution. -/
+theorem cross_slice_point (n : Nat) (shd she : List Nat) (order : List Nat) (sls : List ViewItem)
+    (idx : List Nat) (hperm : order.Perm (List.range n)) (hd : shd.length = n) (he : she.length = n)
+    (hs : sls.length = n) (hi : idx.length = n)
+    (hshape : ∀ j, j < n → shd.getD j 0 = she.getD (order.getD j 0) 0) :
+    Spec.holds shd (.sliceOf order sls) idx =
+      Spec.sliceHolds she sls (otherPoint (order.map some) n idx) :=
+  Lemmas.C04.sliceHolds_reorder n shd she order sls idx hperm hd he hs hi hshape
+
+example : ([1, 2, 0] : List Nat).Perm (List.range 3) := by decide
+
+example : Spec.holds [2, 3, 4] (.sliceOf [1, 2, 0] [.slice (some 1) none none, .slice none none none, .slice (some 2) none none])
+      [1, 2, 3] = true ∧
+    otherPoint [some 1, some 2, some 0] 3 [1, 2, 3] = [3, 1, 2] := by decide
 
 /-- **`MaskSubsetState` with the other dataset's pixel ids**: each gathered point gets the element of the
 mask at the matching point of the other dataset. -/
